@@ -464,6 +464,13 @@ func (e *Engine) dispatch(st *State, fn *types.Func, args []Value, call *ast.Cal
 			}
 		}
 	}
+	if e.fc != nil {
+		for _, x := range e.fc.dbonly {
+			if full == x || strings.HasSuffix(full, "/"+x) || strings.HasSuffix(full, "."+x) || strings.HasSuffix(full, ")."+x) {
+				return e.mapsOnlyCall(st, full, sig, call)
+			}
+		}
+	}
 	if e.fc != nil && len(e.fc.only) > 0 && !ignored {
 		keep := false
 		for _, x := range e.fc.only {
@@ -691,6 +698,31 @@ func (e *Engine) havocCall(st *State, name string, sig *types.Signature, call *a
 		e.assume(st, Ge(na, st.alloc), "allocation pointer is monotone")
 		st.alloc = na
 	}
+	var vals TupleV
+	for i := 0; i < sig.Results().Len(); i++ {
+		vals = append(vals, e.symbolic(st, "r_"+sanitize(shortName(name)), sig.Results().At(i).Type()))
+	}
+	if len(vals) == 1 {
+		return vals[0]
+	}
+	return vals
+}
+
+// mapsOnlyCall: callee named in a `dbonly` clause -- assumed to change database buckets and Go maps only.
+func (e *Engine) mapsOnlyCall(st *State, name string, sig *types.Signature, call *ast.CallExpr) Value {
+	if e.specMode > 0 {
+		e.fail(call, "call of %s in a contract expression", name)
+	}
+	e.noteAssumption("effects of " + name + " assumed limited to database buckets and Go maps, results arbitrary (dbonly clause)")
+	if e.frame != nil && !e.frame.all {
+		e.oblige(st, "frame", "call of "+shortName(name)+" (dbonly: may modify any bucket or map) stays within the modifies frame", tFalse, call.Pos(), nil)
+	}
+	for _, k := range sortedTKeys(st.ghost) {
+		st.ghost[k] = e.fresh("g_"+k+"_dbonly", st.ghost[k].sort)
+	}
+	na := e.fresh("alloc_call", SInt)
+	e.assume(st, Ge(na, st.alloc), "allocation pointer is monotone")
+	st.alloc = na
 	var vals TupleV
 	for i := 0; i < sig.Results().Len(); i++ {
 		vals = append(vals, e.symbolic(st, "r_"+sanitize(shortName(name)), sig.Results().At(i).Type()))
